@@ -33,14 +33,14 @@ use zcash_pool_migration::engine::{
     MigrationTxState, PoolMigrationRead, PoolMigrationWrite, ProvedTransaction, RebuildError,
 };
 use zcash_pool_migration::scheduling::SchedulingParams;
-use zcash_pool_migration_memory::{regtest_network, spending_key, CommitMock};
+use zcash_pool_migration_memory::{regtest_network, spending_key, CommitMock, MockBackend};
 use zcash_pool_migration::preparation::PreparationPlan;
 use zcash_pool_migration::satisfiability::{
     advance_migration, AdvanceConfig, DuenessTargets, ReorgSettleDepth, ReplanThreshold,
     StepSatisfiability, UnsatisfiableCause, UnsatisfiableKind,
 };
 use zcash_pool_migration::scheduling::AnchorBucketInterval;
-use zcash_pool_migration::state::AdvanceStep;
+use zcash_pool_migration::state::{AdvanceStep, Blocker, NextAction};
 use zcash_pool_migration::testing::arb_migration_state;
 use zcash_primitives::block::BlockHash;
 use zcash_protocol::consensus::BlockHeight;
@@ -227,7 +227,8 @@ impl PoolMigrationWrite for Store {
     }
 }
 
-/// The n-th word is `1 << (age_n - 1)`, so `draw_anchor_age` returns `age_n` and consumes one word.
+/// The n-th word is `1 << (age_n - 1)`, so `draw_anchor_age` returns `age_n` and consumes one word;
+/// past the end of the script every word is 1 (odd: age 1, always accepted by the sampler).
 struct ScriptRng {
     ages: Vec<u32>,
     pos: usize,
@@ -237,7 +238,7 @@ impl RngCore for ScriptRng {
         self.next_u64() as u32
     }
     fn next_u64(&mut self) -> u64 {
-        let a = if self.ages.is_empty() { 1 } else { self.ages[self.pos % self.ages.len()] };
+        let a = if self.pos < self.ages.len() { self.ages[self.pos] } else { 1 };
         self.pos += 1;
         1u64 << (a - 1)
     }
@@ -636,6 +637,7 @@ struct Stats {
     persisted: u64,
     rt_fail: u64,
     contract_breaking: u64,
+    mem_disagree: u64,
     rebuilds: BTreeMap<&'static str, u64>,
     reversed: u64,
     tx_counts: BTreeMap<usize, u64>,
@@ -647,6 +649,7 @@ struct Persist<'a> {
     account: zcash_client_sqlite::AccountUuid,
     net: zcash_protocol::local_consensus::LocalNetwork,
     tables: &'a (String, String, String), // migrations, transactions, transaction_deps
+    mem: MockBackend,
 }
 
 /// What `replace_migration` wrote, read with plain SELECTs in insertion order: the newest parent
@@ -723,12 +726,12 @@ fn dump_rows(conn: &rusqlite::Connection, t: &(String, String, String)) -> Resul
 }
 impl<'a> Persist<'a> {
     /// Save with `replace_migration`, load back, compare; count live migrations.
-    fn roundtrip(&mut self, s: &MigrationState) -> ((bool, bool, bool), String) {
+    fn roundtrip(&mut self, s: &MigrationState) -> ((bool, bool, bool, bool), String) {
         let r = self.roundtrip_inner(s);
         let d = dump_rows(&*self.conn, self.tables).unwrap_or_else(|e| format!("DumpFailed_{:?}", e).replace(' ', "_"));
         (r, d)
     }
-    fn roundtrip_inner(&mut self, s: &MigrationState) -> (bool, bool, bool) {
+    fn roundtrip_inner(&mut self, s: &MigrationState) -> (bool, bool, bool, bool) {
         let t0 = std::time::Instant::now();
         let mut store = PoolMigrations::for_account(self.net, SystemClock, &mut *self.conn, self.account).expect("store");
         unsafe { T_OPEN += t0.elapsed().as_nanos() as u64; }
@@ -737,7 +740,7 @@ impl<'a> Persist<'a> {
         unsafe { T_REPL += t0.elapsed().as_nanos() as u64; }
         if let Err(e) = rr {
             eprintln!("replace_migration failed: {:?}", e);
-            return (false, false, false);
+            return (false, false, false, false);
         }
         let t0 = std::time::Instant::now();
         let latest = store.latest_migration();
@@ -755,7 +758,28 @@ impl<'a> Persist<'a> {
             .list_migrations()
             .map(|l| l.iter().filter(|m| !m.status().is_terminal()).count())
             .unwrap_or(99);
-        (latest_ok, get_ok, live <= 1)
+        // the in-memory backend of zcash_pool_migration_memory, driven with the same writes, must
+        // agree with the SQLite store: after the replace, and after a single-row lifecycle update
+        self.mem.replace_migration(s).unwrap();
+        let mut mem_ok = matches!((&got, self.mem.get_migration()), (Ok(a), Ok(b)) if *a == b);
+        if !s.is_terminal() && !s.transactions().is_empty() {
+            let k = (s.transactions().len() * 7 + u32::from(s.transactions()[0].scheduled_height()) as usize) % s.transactions().len();
+            let row = &s.transactions()[k];
+            let new_state = match row.state() {
+                MigrationTxState::Proved => MigrationTxState::Broadcast { txid: row.txid() },
+                MigrationTxState::Broadcast { txid } => MigrationTxState::Mined { txid, height: row.scheduled_height() },
+                MigrationTxState::Signed => MigrationTxState::Proved,
+                other => other,
+            };
+            let a = store.update_transaction(row.id(), new_state);
+            let b = self.mem.update_transaction(row.id(), new_state);
+            mem_ok &= a.is_ok() && b.is_ok();
+            mem_ok &= matches!((store.get_migration(), self.mem.get_migration()), (Ok(x), Ok(y)) if x == y);
+            // restore what the sequence persisted
+            mem_ok &= store.replace_migration(s).is_ok();
+            self.mem.replace_migration(s).unwrap();
+        }
+        (latest_ok, get_ok, live <= 1, mem_ok)
     }
 }
 
@@ -763,10 +787,10 @@ fn ids_of(s: &MigrationState) -> Vec<u32> {
     s.transactions().iter().map(|t| u32::from(t.id())).collect()
 }
 
-fn emit(pre: &str, ev: String, post: &MigrationState, out: String, pers: Option<((bool, bool, bool), String)>) {
+fn emit(pre: &str, ev: String, post: &MigrationState, out: String, pers: Option<((bool, bool, bool, bool), String)>) {
     let p = match pers {
         None => "PNone".to_string(),
-        Some(((a, b, c), d)) => format!("(PRows {} {} {} {})", boolc(a), boolc(b), boolc(c), d),
+        Some(((a, b, c, m), d)) => format!("(PRows {} {} {} {} {})", boolc(a), boolc(b), boolc(c), boolc(m), d),
     };
     case(format!("Case {} {} {} {} {}", pre, ev, p_state(post), out, p));
 }
@@ -780,7 +804,7 @@ fn run_sequence(r: &mut Rng, mut s: MigrationState, base: u32, len: usize, mut p
         // the initial state itself must round-trip
         let rt = p.roundtrip(&s);
         stats.persisted += 1;
-        if rt.0 != (true, true, true) {
+        if rt.0 != (true, true, true, true) {
             stats.rt_fail += 1;
         }
         emit(&p_state(&s), "ENoop".into(), &s, "OUnit".into(), Some(rt));
@@ -868,7 +892,6 @@ fn run_sequence(r: &mut Rng, mut s: MigrationState, base: u32, len: usize, mut p
                     let ages: Vec<u32> = {
                         let k = r.range(1, 4) as usize;
                         let mut v: Vec<u32> = (0..k).map(|_| *r.pick(&[1u32, 1, 2, 3, 4, 5, 7])).collect();
-                        v.push(1); // the rejection loop needs an accepted age
                         v
                     };
                     let mut store = Store { answers: answers.clone(), default: dflt.clone(), mined: mined.clone(), replaced: 0, queries: 0 };
@@ -890,7 +913,37 @@ fn run_sequence(r: &mut Rng, mut s: MigrationState, base: u32, len: usize, mut p
                         list(mined.iter().map(|(k, v)| format!("({}, {})", k, v))),
                         list(ages.iter().map(|a| format!("{}", a)))
                     );
+                    // the same call against the in-memory backend (zcash_pool_migration_memory)
+                    let mem_agrees = {
+                        let mut mb = MockBackend::new(vec![], 0);
+                        for t in before.transactions() {
+                            let id = u32::from(t.id());
+                            mb.satisfiability.insert(t.id(), answers.get(&id).unwrap_or(&dflt).real());
+                            if let Some(hh) = mined.get(&txid_num(&t.txid())) {
+                                mb.mined.insert(t.txid(), h(*hh));
+                            }
+                        }
+                        let mut rng2 = ScriptRng { ages: ages.clone(), pos: 0 };
+                        let r2 = catch(|| {
+                            let mut s3 = before.clone();
+                            let a = advance_migration(&mut mb, &mut s3, tg, &cfg, &mut rng2).unwrap();
+                            let stored = mb.get_migration().unwrap();
+                            (s3, a.step().clone(), stored)
+                        });
+                        match (&res, &r2) {
+                            (Some((s2, step, replaced)), Some((s3, step3, stored))) => {
+                                s2 == s3 && step == step3
+                                    && (if *replaced > 0 && !s2.is_terminal() { stored.as_ref() == Some(s2) } else { true })
+                            }
+                            (None, None) => true,
+                            _ => false,
+                        }
+                    };
+                    if !mem_agrees {
+                        stats.mem_disagree += 1;
+                    }
                     match res {
+                        Some(_) if !mem_agrees => ("advance", ev, "OMemDisagree".into()),
                         Some((s2, step, replaced)) => {
                             let shifted = s2.transactions().iter().zip(before.transactions()).any(|(a, b)| a.scheduled_height() != b.scheduled_height());
                             if shifted {
@@ -985,6 +1038,35 @@ fn run_sequence(r: &mut Rng, mut s: MigrationState, base: u32, len: usize, mut p
                         format!("(ERecordSat {} {} {})", scanned, est, list(dets.iter().map(|(i, a)| format!("({}, {})", i, a.coq())))),
                         "OUnit".into(),
                     )
+                } else if roll < 88 && r.chance(3, 4) {
+                    // the status view (a pure query)
+                    let est = match r.below(3) { 0 => scanned, 1 => scanned + r.below(30) as u32, _ => scanned.saturating_sub(5) };
+                    let tg = DuenessTargets::new(h(scanned), h(est));
+                    let st = s.transaction_statuses(tg);
+                    let exp = s.expired_transactions(tg);
+                    let out = format!(
+                        "(OStatuses {} {})",
+                        list(st.iter().map(|x| format!(
+                            "MkStatus {} {} {} {} {} {}",
+                            u32::from(x.id()),
+                            boolc(x.ready()),
+                            opt(x.action().map(|a| match a { NextAction::Prove => "AProve", NextAction::Broadcast => "ABroadcast" }.to_string())),
+                            opt(x.blocked_on().map(|b| match b {
+                                Blocker::Dependencies => "BDependencies",
+                                Blocker::Schedule => "BSchedule",
+                                Blocker::AnchorBoundary => "BAnchorBoundary",
+                                Blocker::Signature => "BSignature",
+                                Blocker::ExpiryImminent => "BExpiryImminent",
+                                Blocker::Expired => "BExpired",
+                                Blocker::AwaitingReevaluation => "BAwaitingReevaluation",
+                                Blocker::Unsatisfiable => "BUnsatisfiable",
+                            }.to_string())),
+                            opt(x.unsatisfiable_kind().map(|k| p_ukind(k).to_string())),
+                            opt(x.mined_height().map(|m| format!("{}", u32::from(m))))
+                        ))),
+                        list(exp.iter().map(|i| format!("{}", u32::from(*i))))
+                    );
+                    ("statuses", format!("(EStatuses {} {})", scanned, est), out)
                 } else if roll < 86 {
                     s.mark_cancelled();
                     ("cancel", "ECancel".into(), "OUnit".into())
@@ -1024,7 +1106,7 @@ fn run_sequence(r: &mut Rng, mut s: MigrationState, base: u32, len: usize, mut p
         let pers = persist.as_deref_mut().map(|p| {
             let rt = p.roundtrip(&s);
             stats.persisted += 1;
-            if rt.0 != (true, true, true) {
+            if rt.0 != (true, true, true, true) {
                 stats.rt_fail += 1;
             }
             rt
@@ -1240,7 +1322,7 @@ fn main() {
             };
             let net = *st.network();
             let _ = st.wallet_mut().conn_mut().execute_batch("PRAGMA synchronous = OFF; PRAGMA journal_mode = MEMORY;");
-            let mut p = Persist { conn: st.wallet_mut().conn_mut(), account, net, tables: &tables };
+            let mut p = Persist { conn: st.wallet_mut().conn_mut(), account, net, tables: &tables, mem: MockBackend::new(vec![], 0) };
             run_sequence(&mut r, s, base, len, Some(&mut p), if use_rb { Some(&rbctx) } else { None }, &mut stats);
         } else {
             run_sequence(&mut r, s, base, len, None, if use_rb { Some(&rbctx) } else { None }, &mut stats);
@@ -1250,7 +1332,7 @@ fn main() {
         format!("{{{}}}", m.iter().map(|(k, v)| format!("\"{}\":{}", k, v)).collect::<Vec<_>>().join(","))
     };
     stat(format!(
-        "{{\"sequences\":{},\"states_dag\":{},\"states_crate_strategy\":{},\"events\":{},\"advance_steps\":{},\"advance_calls_that_shifted\":{},\"sqlite_roundtrips\":{},\"sqlite_roundtrip_failures\":{},\"rebuilds\":{},\"contract_breaking_events\":{},\"states_with_forward_dependencies\":{},\"panics\":{},\"tx_count_hist\":{{{}}}}}",
+        "{{\"sequences\":{},\"states_dag\":{},\"states_crate_strategy\":{},\"events\":{},\"advance_steps\":{},\"advance_calls_that_shifted\":{},\"sqlite_roundtrips\":{},\"sqlite_roundtrip_failures\":{},\"rebuilds\":{},\"contract_breaking_events\":{},\"states_with_forward_dependencies\":{},\"memory_backend_disagreements\":{},\"panics\":{},\"tx_count_hist\":{{{}}}}}",
         stats.seqs,
         stats.dag,
         stats.arb,
@@ -1262,6 +1344,7 @@ fn main() {
         j(&stats.rebuilds),
         stats.contract_breaking,
         stats.reversed,
+        stats.mem_disagree,
         stats.panics,
         stats.tx_counts.iter().map(|(k, v)| format!("\"{}\":{}", k, v)).collect::<Vec<_>>().join(",")
     ));
